@@ -9,6 +9,7 @@ package c08
 // owns the slot of the timestamp, and the timestamp is less than two slots ahead of the clock.
 
 import (
+	"bytes"
 	"fmt"
 	"strings"
 	"testing"
@@ -84,7 +85,8 @@ func TestC09Blocks(t *testing.T) {
 			ts = time.Now().Add(-time.Duration(rapid.IntRange(5, 60).Draw(t, "ago")) * time.Second).UnixNano()
 		}
 		owner := slot.NewFromUnixNano(ts).NextBpIndex(uint16(n)) // may be negative for pre-epoch instants
-		mk := func(k int, ts int64) *types.Block {
+		mk := func(k int, ts int64) *types.Block { return mkOn(t, nd, gen, k, ts) }
+		_ = func(k int, ts int64) *types.Block {
 			p, err := nd.Produce(gen, ts, nil, nil)
 			if err != nil {
 				t.Fatalf("produce: %v", err)
@@ -219,10 +221,65 @@ func TestC09Blocks(t *testing.T) {
 				}
 			}
 		}
+		// child before parent: a block that waits as an orphan gets the same checks when its parent arrives
+		if legit && (tsKind == "past" || tsKind == "recent") && rapid.Bool().Draw(t, "childFirst") {
+			ts2 := ts + 1e9
+			owner2 := int(slot.NewFromUnixNano(ts2).NextBpIndex(uint16(n)))
+			ckind := rapid.SampledFrom([]string{"legit", "wrong-key", "altered-after-signing"}).Draw(t, "childKind")
+			signer := order[owner2]
+			if ckind == "wrong-key" {
+				signer = 9
+				if n > 1 && rapid.Bool().Draw(t, "otherMember") {
+					signer = order[(owner2+1)%n]
+				}
+			}
+			c := mkOn(t, nd, b, signer, ts2)
+			if ckind == "altered-after-signing" {
+				c.Header.CoinbaseAccount = append([]byte{1}, c.Header.CoinbaseAccount...)
+				c.Hash = nil
+				c.Hash = c.BlockHash()
+			}
+			errC := nd.AddPeer(c)
+			errB := nd.AddPeer(b)
+			best := nd.Best()
+			cOnChain := false
+			if h, err := nd.CS.GetHashByNo(c.BlockNo()); err == nil && bytes.Equal(h, c.BlockHash()) {
+				cOnChain = true
+			}
+			if (ckind == "legit") != cOnChain {
+				t.Fatalf("a child block (%s) delivered before its parent is on the main chain=%v after the parent arrived (delivery results: child %v, parent %v; best block %d)\n%s", ckind, cOnChain, errC, errB, best.BlockNo(), desc)
+			}
+			// (the delivery of the parent reports the error of the waiting child when that one is refused)
+			if h, err := nd.CS.GetHashByNo(b.BlockNo()); err != nil || !bytes.Equal(h, b.BlockHash()) {
+				t.Fatalf("the legitimate parent is not on the main chain after its child (%s) had arrived first (delivery results: child %v, parent %v)\n%s", ckind, errC, errB, desc)
+			}
+			if ckind == "legit" && errB != nil {
+				t.Fatalf("parent and child are both legitimate, the parent's delivery reports %v\n%s", errB, desc)
+			}
+			classes = append(classes, "child-first:"+ckind)
+			rec.Case(strings.Join(classes, ","), desc+"|child-first:"+ckind, true, func() interface{} { return desc + " child first: " + ckind })
+			return
+		}
 		// the full path agrees (a legitimate block on genesis is connected)
 		if err := nd.AddPeer(b); (err == nil) != legit {
 			t.Fatalf("addBlock accepted=%v (%v) a block whose legitimacy is %v\n%s", err == nil, err, legit, desc)
 		}
 		rec.Case(strings.Join(classes, ","), desc, nontrivial, func() interface{} { return desc })
 	})
+}
+
+// mkOn makes key k's signed empty block on prev at instant ts.
+func mkOn(t *rapid.T, nd *vnode.Node, prev *types.Block, k int, ts int64) *types.Block {
+	p, err := nd.Produce(prev, ts, nil, nil)
+	if err != nil {
+		t.Fatalf("produce: %v", err)
+	}
+	b := p.Block
+	b.SetConfirms(1)
+	if err := b.Sign(vnode.BPN(k).Priv); err != nil {
+		t.Fatalf("sign: %v", err)
+	}
+	b.Hash = nil
+	b.Hash = b.BlockHash()
+	return b
 }
